@@ -884,10 +884,14 @@ func (c *control) dirInt(colon, at bool, params []any, base int) {
 		colon = false
 		p := *slip.DefaultPrinter()
 		p.ScopedUpdate(c.scope)
-		p.Escape = true
-		p.Readably = true
+		p.Escape = false // as ~A, which the documentation names for a non-integer
+		p.Readably = false
 		p.Base = 10
-		out = p.Append(nil, ta, 0)
+		if ss, ok := ta.(slip.String); ok {
+			out = append(out, ss...)
+		} else {
+			out = p.Append(nil, ta, 0)
+		}
 	}
 	if at && !neg {
 		out = append([]byte{'+'}, out...)
